@@ -165,7 +165,8 @@ Proof. by move=> g0 sz; apply/negP => rx; have := root_size_gt1 g0 rx; rewrite l
 
 (* THE specification of the square-free factor list of the model *)
 Theorem lp_sqfree_factors_spec (f : seq Z) : PR f != 0 ->
-  [/\ forall gk, gk \in lp_sqfree_factors f -> PR gk.1 != 0 /\ rdvd (Poly gk.1) (Poly f)
+  [/\ forall gk, gk \in lp_sqfree_factors f -> PR gk.1 != 0 /\ rdvd (Poly gk.1) (Poly f),
+      forall gk, gk \in lp_sqfree_factors f -> gk.1 = [:: 0%ZZ; 1%ZZ] \/ ~~ root (PR gk.1) 0
     & forall x : R, (\sum_(gk <- lp_sqfree_factors f) \mu_x (PR gk.1) = root (PR f) x :> nat)%N].
 Proof.
 move=> f0; have f0' : Poly f != 0 by rewrite -(PR_neq0 R).
@@ -187,7 +188,7 @@ have rootf x : root (PR f) x = root (PR g) x || ((xdeg != 0)%N && (x == 0)).
   case: xdeg {E sE fppE dvg} => [|n]; rewrite /root ?expr0 ?hornerC ?oner_eq0 //=.
   by rewrite horner_exp hornerX expf_eq0.
 set fs := (if Nat.leb _ _ then _ else _).
-have [fs1 fs2] : (forall gk, gk \in fs -> PR gk.1 != 0 /\ rdvd (Poly gk.1) (Poly f))
+have [fs1 fs2] : (forall gk, gk \in fs -> [/\ PR gk.1 != 0, rdvd (Poly gk.1) (Poly f) & ~~ root (PR gk.1) 0])
     /\ forall x : R, (\sum_(gk <- fs) \mu_x (PR gk.1) = root (PR g) x :> nat)%N.
   rewrite /fs; case: (boolP (Nat.leb _ _)) => [/Nat.leb_le le1|nle].
     split=> // x; rewrite big_nil (negPf (const_noroot x gR0 _)) //.
@@ -218,7 +219,9 @@ have [fs1 fs2] : (forall gk, gk \in fs -> PR gk.1 != 0 /\ rdvd (Poly gk.1) (Poly
     by have := size_Poly g; rewrite polyseq_Poly_pnorm.
   have [H1 H2] := sqfree_loopP (g0:=g) (m:=fun x : R => \mu_x (PR g)) P0 L0
                     (fun x => conj (muP x) (muL x)) dvL bound.
-  split=> [gk /H1 [h1 h2]|x]; first by split=> //; exact: rdvd_trans h2 dvg.
+  split=> [gk /H1 [h1 h2]|x].
+    split=> //; first exact: rdvd_trans h2 dvg.
+    by apply: contra g00; exact: dvdp_root_tr (rdvd_PR R h2).
   by rewrite H2 mu_gt0.
 have X_dv : (xdeg != 0)%N -> rdvd (Poly [:: 0%ZZ; 1%ZZ]) (Poly f).
   move=> xd; apply: rdvd_trans dvpp; exists (Poly g * 'X^xdeg.-1).
@@ -226,10 +229,13 @@ have X_dv : (xdeg != 0)%N -> rdvd (Poly [:: 0%ZZ; 1%ZZ]) (Poly f).
   by rewrite sE mulrCA -exprS prednK // lt0n.
 have -> : Nat.eqb xdeg 0 = (xdeg == 0)%N by case: xdeg {E sE fppE rootf dvg X_dv}.
 case: (altP (xdeg =P 0%N)) => [xd|xd]; rewrite ?xd /= in rootf *.
-  by split=> // x; rewrite fs2 rootf orbF.
-split=> [gk|x].
-  rewrite mem_cat => /orP[/fs1 //|]; rewrite inE => /eqP -> /=.
+  split=> [gk /fs1 [] //|gk /fs1 [_ _ h]|x]; first by right.
+  by rewrite fs2 rootf orbF.
+split=> [gk|gk|x].
+- rewrite mem_cat => /orP[/fs1 [] //|]; rewrite inE => /eqP -> /=.
   by rewrite PR_X polyX_eq0; split=> //; exact: X_dv.
+- rewrite mem_cat => /orP[/fs1 [_ _ h]|]; first by right.
+  by rewrite inE => /eqP -> /=; left.
 rewrite big_cat /= fs2 big_seq1 /= PR_X mu_X rootf.
 by have [->|] := eqVneq x 0; rewrite ?(negPf g00) ?orbF ?addn0.
 Qed.
@@ -388,7 +394,7 @@ move=> fz l0 h0 lh; have f0 : PR f != 0 by rewrite PR_eq0 fz.
 rewrite size_filter /lp_roots_count /lp_roots_count_gen.
 case: (boolP (Nat.leb _ _)) => [/Nat.leb_le le1|_].
   by rewrite rootsR_const // size_PR; apply/ssrnat.leP.
-have [fs1 fs2] := lp_sqfree_factors_spec f0.
+have [fs1 _ fs2] := lp_sqfree_factors_spec f0.
 rewrite /lp_roots_count_seqs /lp_factor_seqs.
 have -> : List.map snd (List.map (fun fk : seq Z * nat => (fst fk, lp_sturm_sequence (fst fk))) (lp_sqfree_factors f))
           = map (fun fk : seq Z * nat => lp_sturm_sequence fk.1) (lp_sqfree_factors f).
